@@ -99,6 +99,7 @@ type Contract struct {
 	entries  map[int][]*Clause // obligations checked when the loop is first reached
 	invs     map[int][]*Clause
 	forget   map[int][]string
+	summarise [][2]string // callee, contract id: calls seen through that contract while verifying this one
 	decr     map[int]*Clause
 	opts     map[string]string
 	uses     []string
@@ -610,6 +611,15 @@ func (cs *ContractSet) parseFile(pkg, path, src string) error {
 			} else {
 				cur.prelets = append(cur.prelets, l)
 			}
+		case "local":
+			// the contract is not applied at call sites by default (only where a caller says "summarise")
+			cur.modular = false
+		case "summarise":
+			f := strings.Fields(rest)
+			if len(f) != 2 {
+				return errf("summarise needs a function and a contract id")
+			}
+			cur.summarise = append(cur.summarise, [2]string{f[0], f[1]})
 		case "forget":
 			// forget <loop> <name>...: when the loop is cut, the named (unmodified) Go variables are
 			// replaced by arbitrary values; what the loop needs to know about them goes into invariants
@@ -1664,6 +1674,23 @@ func (x *Exec) specMethodCall(st *State, recv Value, name string, args []Value) 
 	}
 	if i, ok := recv.(*Iface); ok {
 		if i.dyn == nil {
+			var it *types.Interface
+			if i.styp != nil {
+				it, _ = i.styp.Underlying().(*types.Interface)
+			}
+			if it != nil {
+				// a call on a nil interface value in a specification: an unspecified result
+				// (the clause has to guard it)
+				for k := 0; k < it.NumMethods(); k++ {
+					if m := it.Method(k); m.Name() == name {
+						rs := m.Type().(*types.Signature).Results()
+						if rs.Len() == 1 {
+							x.symArrCtr++
+							return x.symValue(st, rs.At(0).Type(), fmt.Sprintf("unspec%d", x.symArrCtr))
+						}
+					}
+				}
+			}
 			fail("method %s on nil interface in spec", name)
 		}
 		if ao, ok := i.val.(*AbsObj); ok {
@@ -2002,7 +2029,7 @@ func (x *Exec) isNil(v Value) *Term {
 	case *Iface:
 		return mkBool(t.dyn == nil)
 	case *AbsObj:
-		if t.fam && t.nilT != nil {
+		if t.nilT != nil {
 			return t.nilT
 		}
 		return tFalse
